@@ -36,7 +36,8 @@ CLEAN_FUNCS = {"numpy.zeros", "numpy.ones", "numpy.eye", "numpy.arange", "numpy.
                "AssertionError", "IndexError", "KeyError", "RuntimeError", "NotImplementedError", "numpy.shape",
                "numpy.ndim", "numpy.size", "time.time", "warnings.warn", "id", "hash", "callable", "object",
                "numpy.unravel_index", "numpy.ndindex", "numpy.indices", "numpy.triu_indices", "numpy.tril_indices",
-               "numpy.diag_indices", "numpy.version.version"}
+               "numpy.diag_indices", "numpy.version.version", "numpy.result_type", "numpy.promote_types", "numpy.dtype",
+               "numpy.can_cast", "numpy.issubdtype"}
 CLEAN_ATTRS = {"shape", "size", "ndim", "dtype", "itemsize", "nbytes"}
 # builtins whose result is at most as informative as their arguments, without combining entries
 LEN_FUNCS = {"len"}
